@@ -1272,6 +1272,15 @@ def io_cases(run, pool, snaps):
             for pc in (0, 1, 3):
                 for o in (0, 1, 3):
                     cases.append(("io-matrix", (snap, comps, env, ["filter 16 %d" % b, "filter 17 %d" % pc, "filter 18 %d" % o], 0, [])))
+        # PCI kept x Group NONE/ALL/STRUCTURE x Bridge NONE/kept x Package kept/NONE: the objects an I/O locality creates
+        # implicitly (Groups for local_cpus that match no object) must obey the filter of their own type
+        lenv = {k: v for k, v in env.items() if k != "_io"}
+        for pc in (0, 3):
+            for g in (1, 0, 2):
+                for b in (1, 0):
+                    for pk in ((0, 1) if not quick or (g == 1) else (0,)):
+                        fs = ["filter 17 %d" % pc, "filter 13 %d" % g, "filter 16 %d" % b, "filter 18 %d" % rng.choice([0, 1, 3])] + (["filter 1 1"] if pk else [])
+                        cases.append(("io-group-matrix", (snap, comps, lenv, fs, 0, [])))
         fenv = {k: v for k, v in env.items() if not k.startswith("_")}
         for _ in range(2 if quick else 12):
             fl = [rng.choice([0, 1, 3]) for _ in range(3)]
@@ -1663,6 +1672,37 @@ def x86_mutation_cases(run, snaps):
     return cases
 
 
+NONE_TYPES = [1, 2, 3, 5, 6, 7, 8, 9, 10, 11, 12, 13, 15]      # every type that may be filtered out entirely, PU/NUMA/Machine excepted
+
+
+def filter_none_cases(run, snaps):
+    """One type at KEEP_NONE (the others at their defaults or, for the types that create objects of that type implicitly,
+    kept): Groups come from NUMA distances, memory-side parents, I/O locality, s390 books, KNL clusters; Dies and clusters
+    from sysfs; caches from sysfs/cpuid; MemCaches from sysfs.  wf_check's filtered-type-present clause judges.
+    quick: 4 types per snapshot, rotating with the seed; thorough: every type on every snapshot."""
+    quick = run.tier == "quick"
+    cases = []
+    for si, snap in enumerate(snaps):
+        comps, env, _, _ = gen_config(run.rng, snap, plain=True)
+        env = dict(env)
+        env["_light"] = "1"
+        env["_noheap"] = "1"
+        types = NONE_TYPES if not quick else [NONE_TYPES[(run.seed + si + 3 * k) % len(NONE_TYPES)] for k in range(4)]
+        if 13 not in types and quick and (si + run.seed) % 2 == 0:
+            types = types[:3] + [13]
+        for ty in sorted(set(types)):
+            fs = ["filter %d 1" % ty]
+            if ty == 13:
+                fs += run.rng.choice([[], ["filter 15 0"], ["filter 17 0"], ["filter 17 3", "filter 16 0"]])
+                if run.rng.random() < 0.3:
+                    env = dict(env)
+                    env["HWLOC_USE_NUMA_DISTANCES"] = "7"
+            elif ty == 15:
+                fs = ["filter 15 1", "filter 13 %d" % run.rng.choice([0, 1, 2])]
+            cases.append(("filter-none", (snap, comps, env, fs, run.rng.choice([0, 0, 1]), [])))
+    return cases
+
+
 def select_snapshots(run):
     lin = [Snap(t) for t in S.snapshots("linux")]
     x86 = [Snap(t) for t in S.snapshots("x86")]
@@ -1807,6 +1847,7 @@ def check_snapshots(run, snapexe, drv, replay_case=None):
         labelled += corrupt_cases(run, pool, allsnaps)
         labelled += node_mutation_cases(run, pool, allsnaps)
         labelled += x86_mutation_cases(run, allsnaps)
+        labelled += filter_none_cases(run, allsnaps)
         run.cov["snapshots_used"] = sorted(s.rel for s in snaps)
         # judge per label so that the evidence shows the distribution
         cases = [c for _, c in labelled]
